@@ -1110,3 +1110,5 @@ N('C13', 'apply_tactic walks over a reversed copy', 'server/method.py',
   "        for item in reversed(new_prf.items):\n            if item.rule == 'sorry':", "        for item in reversed(list(new_prf.items)):\n            if item.rule != 'sorry':\n                continue\n            if True:")
 B('C16', 'input rows without variables filed like any other row', 'prover/omega.py',
   "        if df.factoid.is_false_factoid():\n            return \"UNSAT\", Contr(df.deriv)\n        elif df.factoid.is_true_factoid():\n            continue\n        insert_db(db, df)", "        insert_db(db, df)", 'C16.O10', 'solve_matrix')
+B('C15', 'the constant false encoded like an atom', 'prover/tseitin.py',
+  "        elif eq_pt.rhs == false:", "        elif False:", 'C15.X12', 'constant(false)')
